@@ -185,6 +185,51 @@ func c03Gen(tier string, rng *rand.Rand, emit func(interface{})) {
 		}
 		emit(c03Family(rng, x1, x2, []c03Limits{def}, it%3 == 0))
 	}
+	// (b2) both sides of the switch-over at small limits, exhaustively in the sizes: for (EL,TL) in
+	// (3,2), (2,3), (1,1), (0,0) every (n1,n2) with sizes within one of the limit, tied and untied data
+	for _, lm := range []c03Limits{{3, 2}, {2, 3}, {1, 1}, {0, 0}} {
+		for _, tied := range []bool{false, true} {
+			lim := lm.el
+			if tied {
+				lim = lm.tl
+			}
+			for n1 := lim - 1; n1 <= lim+1; n1++ {
+				for n2 := lim - 1; n2 <= lim+1; n2++ {
+					if n1 < 1 || n2 < 1 || (tied && n1+n2 < 3) {
+						continue
+					}
+					var x1, x2 []float64
+					if tied {
+						for i := 0; i < n1; i++ {
+							x1 = append(x1, float64(rng.Intn(3)))
+						}
+						for i := 0; i < n2; i++ {
+							x2 = append(x2, float64(rng.Intn(3)+1))
+						}
+						x1[0], x2[0] = 1, 1
+						if n1 > 1 {
+							x1[1] = 0
+						} else {
+							x2[1] = 3
+						}
+					} else {
+						perm := rng.Perm(n1 + n2)
+						for i, q := range perm {
+							if i < n1 {
+								x1 = append(x1, float64(q))
+							} else {
+								x2 = append(x2, float64(q))
+							}
+						}
+					}
+					if tied && (n1+n2)%2 == 0 && n1+n2 >= 3 {
+						x1, x2 = mwOnePair(rng, n1, n2) // exactly one tied pair
+					}
+					emit(c03Family(rng, x1, x2, []c03Limits{lm, def, {1000000, 1000000}}, false))
+				}
+			}
+		}
+	}
 	// (c) large samples (normal approximation), with and without ties, up to 600
 	nLarge := 40
 	if thorough {
@@ -230,6 +275,66 @@ func c03Gen(tier string, rng *rand.Rand, emit func(interface{})) {
 			{EL: lm.el, TL: lm.tl, X1: toF64s([]float64{1}), X2: toF64s([]float64{2}), Alts: allAlts},
 		}})
 	}
+	// (e) sigma = 0 must be detected for EVERY size: all pooled values equal, every (n1,n2) in
+	// 1..60 x 1..60 with the normal approximation forced (limits 0,0), a sample of pairs at the
+	// default limits (above 25 the tied data take the approximate branch), random large sizes;
+	// and the neighbouring inputs with exactly one different value (sigma > 0: a result, not an error)
+	eqVals := []float64{7.5, 0, -3, 1e300, 5e-324, 1.0 / 3}
+	constS := func(n int, v float64) []F64 {
+		xs := make([]float64, n)
+		for i := range xs {
+			xs[i] = v
+		}
+		return toF64s(xs)
+	}
+	var pend []mwRun
+	pendVals := 0
+	flush := func() {
+		if len(pend) > 0 {
+			emit(c03Case{Runs: pend})
+			pend, pendVals = nil, 0
+		}
+	}
+	addRun := func(r mwRun) {
+		if len(pend) >= 60 || pendVals+len(r.X1)+len(r.X2) > 15000 {
+			flush()
+		}
+		pend = append(pend, r)
+		pendVals += len(r.X1) + len(r.X2)
+	}
+	for n1 := 1; n1 <= 60; n1++ {
+		for n2 := 1; n2 <= 60; n2++ {
+			v := eqVals[(n1*7+n2)%len(eqVals)]
+			alts := []int{(n1+n2)%3 - 1}
+			addRun(mwRun{EL: 0, TL: 0, X1: constS(n1, v), X2: constS(n2, v), Alts: alts})
+			if (n1+2*n2)%9 == int(rng.Intn(9)) || (n1 > 25 && n2 > 25 && (n1+n2)%4 == 0) {
+				addRun(mwRun{EL: 50, TL: 25, X1: constS(n1, v), X2: constS(n2, v), Alts: allAlts})
+			}
+			if (n1*n2)%11 == 3 {
+				// one value differs: not all equal
+				x1 := constS(n1, 2)
+				x1[rng.Intn(n1)] = F64(2 + float64(rng.Intn(2)*2-1))
+				addRun(mwRun{EL: 0, TL: 0, X1: x1, X2: constS(n2, 2), Alts: allAlts})
+			}
+		}
+	}
+	nEqBig := 12
+	if thorough {
+		nEqBig = 200
+	}
+	for it := 0; it < nEqBig; it++ {
+		n1, n2 := 61+rng.Intn(540), 61+rng.Intn(540)
+		if it%3 == 0 {
+			n2 = 1 + rng.Intn(60)
+		}
+		v := eqVals[rng.Intn(len(eqVals))]
+		lm := def
+		if it%2 == 0 {
+			lm = c03Limits{0, 0}
+		}
+		addRun(mwRun{EL: lm.el, TL: lm.tl, X1: constS(n1, v), X2: constS(n2, v), Alts: allAlts})
+	}
+	flush()
 	big := make([]float64, 120)
 	for i := range big {
 		big[i] = 7.5
